@@ -41,7 +41,9 @@ def merge(inputs, outs, profile_tag=""):
             if o["id"] != r["id"]:
                 raise ToolError("id mismatch")
             m["outs"].append({"cfg": cfg + profile_tag, "kind": o["out"]["kind"], "bits": o["out"]["bits"],
-                              "allocs": o.get("allocs", 0)})
+                              "allocs": o.get("allocs", 0), "path": o.get("path", "unknown"),
+                              "num": o.get("num", {"mant": [], "exp": 0, "many": False}),
+                              "mod": o.get("mod", {"mant": [], "exp": 0})})
         recs.append(m)
     return recs
 
@@ -51,17 +53,39 @@ def adjudicate(wd, recs, flags, name, timeout=3000):
     path = os.path.join(wd, name + "-records.ndjson")
     core.write_ndjson(path, recs)
     env = {"VERIF_RECORDS": path}
-    for f in ("VALUE", "AGREE", "NOPANIC", "ALLOCS", "EXPECT"):
+    for f in ("VALUE", "AGREE", "NOPANIC", "ALLOCS", "EXPECT", "MODEL"):
         env["VERIF_CHECK_" + f] = "1" if f in flags else "0"
     res = core.tlc(os.path.join(core.SPEC, "cf", "CF_Parse.tla"), os.path.join(core.SPEC, "cf", "CF_Parse.cfg"),
                    name, env=env, coverage=False, timeout=timeout)
     verdicts = {}
     trails = collections.Counter()
+    model = {"actions": collections.Counter(), "drift": 0, "drift_ids": [], "dbg": 0, "dbg_ids": [], "max_limbs": 0,
+             "max_limbs_id": None, "records": 0}
     for p in res.prints:
         if isinstance(p, dict) and "id" in p:
             verdicts[p["id"]] = p
+            tr = list(p["trail"])
+            if tr and tr[-1].startswith("{"):
+                note = json.loads(tr.pop())
+                model["records"] += 1
+                for a in set(note["lemire"]):
+                    model["actions"][a] += 1
+                for a in set(note["bellerophon"]):
+                    if a.startswith("B_"):
+                        model["actions"][a] += 1
+                if note["drift"]:
+                    model["drift"] += 1
+                    model["drift_ids"].append(p["id"])
+                if note["dbg"]:
+                    model["dbg"] += 1
+                    model["dbg_ids"].append(p["id"])
+                if note["limbs"] > model["max_limbs"]:
+                    model["max_limbs"] = note["limbs"]
+                    model["max_limbs_id"] = p["id"]
             if p["verdict"] == "ok":
-                trails[" > ".join(p["trail"])] += 1
+                trails[" > ".join(tr)] += 1
+    model["actions"] = dict(model["actions"])
+    res.model = model
     bad = core.tlc_fatal(res)
     if bad or len(verdicts) != len(recs):
         raise ToolError("TLC did not adjudicate every record (%d of %d); errors: %s; see %s" %
@@ -135,6 +159,7 @@ def parse_property_check(prop, tier, inputs, configs, flags, rule, level_note, p
         "families": dict(tags),
         "impl_paths": hist,
         "spec_trails": dict(trails),
+        "model": {k: (v[:20] if isinstance(v, list) else v) for k, v in res.model.items()},
         "configs": list(configs),
         "profiles": list(profiles),
         "tlc_cmd": res.cmd,
